@@ -307,10 +307,24 @@ def write_flow(ctx, syn_mod, shelly_members, has_escape=True,
     esc_calls = []
     for e in lits:
         a = e.call.args[0] if e.call.args else None
-        vals = [a]
-        if isinstance(a, ast.Name):
-            vals = [v for v in F.reaching_defs(e.fn, a) if v is not None] \
-                or [a]
+
+        def expand(v, d=0):
+            """The expressions the written value can be: through locals
+            (reaching definitions) and both arms of conditionals."""
+            if d > 4:
+                return [v]
+            if isinstance(v, ast.IfExp):
+                return expand(v.body, d + 1) + expand(v.orelse, d + 1)
+            if isinstance(v, ast.Name):
+                ds = [x for x in F.reaching_defs(e.fn, v) if x is not None]
+                if ds:
+                    out_ = []
+                    for x in ds:
+                        out_ += expand(x, d + 1) if isinstance(
+                            x, ast.IfExp) else [x]
+                    return out_
+            return [v]
+        vals = expand(a)
         kinds = set()
         for v in vals:
             if isinstance(v, ast.Call) and Q.callee_attr(v) == 'escape_str':
@@ -351,8 +365,11 @@ def write_flow(ctx, syn_mod, shelly_members, has_escape=True,
                        'value written to the stream is neither literal text, '
                        'an escape_str result nor nested-writer output')
     # (1)+(4) strings: shell-quoted when shelly, then escaped
-    sq = _cls_effects(F, W, lambda e: e.name == 'shell_quote' and
-                      isinstance(e.call.func, ast.Name))
+    # calls of the quoting callable handed to write() (its `shell_quote`
+    # parameter, under whatever name a helper receives it)
+    sq = _cls_effects(F, W, lambda e: isinstance(e.call.func, ast.Name) and
+                      e.call.func.id in Q.params(e.fn.node) and param_of(
+                          F.atoms(e.call.func, e.fn, e.bind), 'shell_quote'))
     # the "shell context" predicate: the comparison of the syntax parameter
     # with Syntax members in Writer.write
     got = None
@@ -401,7 +418,8 @@ def write_flow(ctx, syn_mod, shelly_members, has_escape=True,
                 rd = F.reaching_defs(e.fn, a0, with_stmt=True)
                 from_q = [st for st, val in rd if any(
                     isinstance(c, ast.Call) and isinstance(
-                        c.func, ast.Name) and c.func.id == 'shell_quote'
+                        c.func, ast.Name) and
+                    c.func.id in Q.params(e.fn.node)
                     for c in ast.walk(st))]
                 order = order and bool(from_q)
             else:
@@ -647,8 +665,8 @@ def sh_safe(ctx, include_make_recipe=False, rule_id='SH-SAFE'):
                'NAME=value is not built as one word (jbos of name, raw =, '
                'value)')
     ff = F.fn(POSIX + ':global_env')
-    strs = [n.value for n in ast.walk(ff.node) if isinstance(
-        n, ast.Constant) and isinstance(n.value, str)]
+    strs = [n.value for g in F.reach(ff, 0) for n in ast.walk(g.node)
+            if isinstance(n, ast.Constant) and isinstance(n.value, str)]
     ctx.ob(R, 'global_env|export-keyword', 'export' in strs, ff.node,
            'global_env does not emit `export`')
 
@@ -657,6 +675,42 @@ def sh_safe(ctx, include_make_recipe=False, rule_id='SH-SAFE'):
 # text exempt from escaping: write_literal(...) outside Writer, literal(...)
 SAFE_TABLES = ('_global_variables', '_target_variables', '_defines',
                '_variables', 'variables', '_rules')
+
+
+def _pure_constant(v, _d=0):
+    if _d > 4:
+        return False
+    if v is None or isinstance(v, (str, int, bool, float)):
+        return True
+    if isinstance(v, (tuple, list, frozenset)):
+        return all(_pure_constant(x, _d + 1) for x in v)
+    if isinstance(v, dict):
+        return all(_pure_constant(k, _d + 1) and _pure_constant(x, _d + 1)
+                   for k, x in v.items())
+    return isinstance(v, EnumMember)
+
+
+def _constant_table(F, cs, fn):
+    """The access path names a module-level or class-level table that folds
+    to constants only (text taken from it is repository text, not script
+    data)."""
+    if not cs:
+        return False
+    try:
+        if cs[0] in ('self', 'cls') and len(cs) >= 2:
+            ci = fn.cls or F.repo.enclosing_class(fn.node)
+            if ci is None:
+                return False
+            owner, v = ci.find_attr(cs[1].split('[')[0])
+            if v is None:
+                return False
+            return _pure_constant(const_eval(F.repo, owner.module, v, owner))
+        r = F.repo.resolve_symbol(fn.module.name, cs[0].split('[')[0])
+        if r is not None and r[0] == 'value' and r[3] is not None:
+            return _pure_constant(const_eval(F.repo, r[1], r[3]))
+    except Exception:
+        return False
+    return False
 
 
 def _safe_text_atoms(F, atoms, fn):
@@ -677,6 +731,8 @@ def _safe_text_atoms(F, atoms, fn):
                 r = None
             if r is not None and r[0] in ('module', 'class', 'func'):
                 continue
+        if _constant_table(F, cs, fn):
+            continue
         last = cs[-1] if cs else ''
         if last == 'name' and len(cs) >= 2 and (
                 any(t in cs for t in SAFE_TABLES) or
